@@ -216,6 +216,9 @@ def run(pid, tier):
         import cbmccheck
         cb_handle = cbmccheck.start(["getbits"])      # symbolic tie of lrtr_get_bits / lrtr_ipv6_get_bits to the bit-field specification
     proved = vlib.prove(rep, P["modules"], P["theorems"], extra_targets=["pfxdriver"])
+    import cfuncheck
+    if pid in cfuncheck.LINKS and pid in cfuncheck.ENABLED:
+        cfuncheck.link(rep, pid)     # translation tie: the C text of the small functions = the model, for every input
     drv = vlib.driver_path("pfxdriver")
     if not os.path.exists(drv):
         ok, log = vlib.lake_build(["pfxdriver"])
